@@ -3,6 +3,7 @@ package main
 // Go maps: a reference into two heaps, values (Array K V) and presence (Array K Bool).
 
 import (
+	"strings"
 	"fmt"
 	"go/types"
 	"sort"
@@ -12,6 +13,20 @@ import (
 
 func (vc *VC) mapHeaps(mt *types.Map) (string, string, string, string) {
 	ks, vs := vc.sortOf(mt.Key()), vc.sortOf(mt.Elem())
+	if strings.HasPrefix(ks, "(Array") {
+		// array-typed keys ([N]byte): the map is indexed by an injective integer code of the array value, so that
+		// no array-indexed SMT arrays arise (cvc5 rejects them, z3 is slow on them)
+		vc.declRaw("fn:arrid"+sanitize(ks), fmt.Sprintf("(declare-fun arrid%s (%s) Int)\n(declare-fun arrid_inv%s (Int) %s)\n(assert (forall ((x %s)) (! (= (arrid_inv%s (arrid%s x)) x) :pattern ((arrid%s x)))))", sanitize(ks), ks, sanitize(ks), ks, ks, sanitize(ks), sanitize(ks), sanitize(ks)))
+		hv := "Hm_" + sanitize(ks) + "_" + sanitize(vs)
+		hp := "Hmp_" + sanitize(ks) + "_" + sanitize(vs)
+		if vc.heapMapKey == nil {
+			vc.heapMapKey = map[string]string{}
+		}
+		vc.heapMapKey[hv] = "Int"
+		vc.ensureHeap(hv, "(Array Int "+vs+")", mt.Elem(), false)
+		vc.ensureHeap(hp, "(Array Int Bool)", nil, false)
+		return hv, hp, "Int", vs
+	}
 	hv := "Hm_" + sanitize(ks) + "_" + sanitize(vs)
 	hp := "Hmp_" + sanitize(ks) + "_" + sanitize(vs) // per map type: maps of different Go types never alias
 	if vc.heapMapKey == nil {
@@ -48,7 +63,7 @@ func (fr *frame) lookup(x *ssa.Lookup, cur *State) SV {
 		return SV{t: r, typ: x.Type()}
 	}
 	hv, hp, _, _ := vc.mapHeaps(mt)
-	kt := vc.conv(k, mt.Key())
+	kt := vc.mapKey(mt, vc.conv(k, mt.Key()))
 	present := and(not(eq(m.t, "0")), sel(sel(vc.heapGet(cur, hp), m.t), kt))
 	val := ite(present, sel(sel(vc.heapGet(cur, hv), m.t), kt), vc.zero(mt.Elem()))
 	if x.CommaOk {
@@ -65,7 +80,7 @@ func (fr *frame) mapUpdate(x *ssa.MapUpdate, cur *State) {
 	mt := x.Map.Type().Underlying().(*types.Map)
 	hv, hp, _, _ := vc.mapHeaps(mt)
 	fr.safe("nilmap", not(eq(m.t, "0")))
-	kt := vc.conv(k, mt.Key())
+	kt := vc.mapKey(mt, vc.conv(k, mt.Key()))
 	h := vc.heapGet(cur, hv)
 	p := vc.heapGet(cur, hp)
 	vc.heapSet(cur, hv, sto(h, m.t, sto(sel(h, m.t), kt, vc.conv(v, mt.Elem()))))
@@ -78,7 +93,7 @@ func (fr *frame) mapDelete(args []SV, cur *State) SV {
 	m, k := args[0], args[1]
 	mt := m.typ.Underlying().(*types.Map)
 	_, hp, _, _ := vc.mapHeaps(mt)
-	kt := vc.conv(k, mt.Key())
+	kt := vc.mapKey(mt, vc.conv(k, mt.Key()))
 	p := vc.heapGet(cur, hp)
 	vc.heapSet(cur, hp, ite(eq(m.t, "0"), p, sto(p, m.t, sto(sel(p, m.t), kt, tFalse))))
 	return SV{t: "0"}
@@ -143,6 +158,9 @@ func (fr *frame) rangeOp(x *ssa.Range, cur *State) SV {
 	}
 	m := fr.val(x.X)
 	_, hp, ks, _ := vc.mapHeaps(mt)
+	if strings.HasPrefix(vc.sortOf(mt.Key()), "(Array") {
+		vc.errorf("range over a map with array keys is not supported (%s)", funcKey(fr.fn))
+	}
 	n := fr.rangeOrdinal(x)
 	ln, key, idx := vc.rangeSyms(n, ks)
 	p0 := vc.nameTerm2("present0", ite(eq(m.t, "0"), "((as const (Array "+ks+" Bool)) false)", sel(vc.heapGet(cur, hp), m.t)), "(Array "+ks+" Bool)")
@@ -200,4 +218,13 @@ func (vc *VC) rangeKeySort(n int) string {
 		return ""
 	}
 	return vc.sortOf(mt.Key())
+}
+
+// mapKey converts a key value of map type mt to the index used in the map heaps.
+func (vc *VC) mapKey(mt *types.Map, k T) T {
+	if ks := vc.sortOf(mt.Key()); strings.HasPrefix(ks, "(Array") {
+		vc.mapHeaps(mt)
+		return app("arrid"+sanitize(ks), k)
+	}
+	return k
 }
